@@ -151,6 +151,9 @@ def run_generation(ctx, tname, mt, mod, state, seq, both_contexts, gen):
             back = synth_back = read_sunvox_file(BytesIO(data)).module
         else:
             p = Project()
+            ver = [None, (1, 9, 4, 2), None, (1, 7, 0, 0), None, (2, 0, 0, 0)][len(repr(seq)) % 6]
+            if ver:
+                p.sunvox_version = ver  # the project is written as a file of an older SunVox version
             p.attach_module(mod.clone() if gen else mod)
             mod = p.modules[-1]
             data = p.read()
